@@ -59,6 +59,16 @@ CHECKS = {
          "Model checking of the transaction/lock design plus conformance of every call result, read value and change callback of real store histories with the map reference; a violation is a real call whose result, value or callbacks deviate, or two overlapping transactions on one id.",
          "Values are atoms; when two failure reasons coincide (wrong type on an existing/missing id, empty id) either error is accepted; mockstore is untyped.",
          "4.3 C11"),
+ "C13": ("storesim", "model_checking",
+         "TLA+ index specification (ResIndex.tla: RefQuery = sorted, filtered, windowed scan; MCIndex.tla: mutation / index task take-commit-notify / Flush with the shipped and the sentinel design): TLC model-checks AfterFlush for all interleavings of the bound; on a real BadgerDB query store random mutation histories are followed by Flush and random queries (prefixes incl. NUL bytes, filter, offset, limit, direction), and Flush is raced against an index task held at the bs.idx.start hook; every query is a record judged by TLC (TraceIndex: got = RefQuery)",
+         "Model checking of the Flush/index-task design plus conformance of real query results with the reference scan; a violation is a real query after a returned Flush whose result differs from the reference.",
+         "Keys and ids contain no NUL byte; the harness keeps its own copy of the store content (updated on successful mutations).",
+         "4.3 C13"),
+ "C14": ("storesim", "model_checking",
+         "same specifications as C13 (MCIndex invariants NotifiedAfterCommit, ChainPerId; ResIndex MustAffect/MustNotAffect): on a real BadgerDB query store every key-changing mutation's QueryChange.Events(q) is evaluated for random queries and judged by TLC against RefQuery-before # RefQuery-after (must affect) and neither-key-matches (must not affect); callback count/order/after-commit per history; histories through store.QueryHandler on a recording connection (ordinary and query resources): a reset or query event whenever the served result differs",
+         "Model checking of callback ordering plus conformance of the real affected-flag and callbacks; a violation is a missed invalidation, a spurious one at the stated boundary, a wrong callback count/order, a callback before the index commit, or a changed served result without reset/query event.",
+         "Query-change Events() of badgerstore reports only the reset flag (no event lists); the client-side replay of query events is covered by C15/C10 machinery, here only 'told whenever the result differs' is judged end to end.",
+         "4.3 C14"),
  "C15": ("qevent", "model_checking",
          "TLA+ query-event specification (ResQueryEvent.tla: subscribe, deliver, listener take/enqueue, timer, drain, end-with-nil, callback, release): TLC model-checks AtMostOneReply/NilAtMostOnce/NilLast/FailedSub and the liveness properties Answered/Ends/Released; counterexamples of the shipped design (ListenerEndsQuery=FALSE) and tlc -simulate behaviours of the repaired design are replayed on the real service through gates in the listener and the expiry path; random histories, subscription failures, long histories; one record per real query event judged by TLC (TraceQueryObs.tla)",
          "Exhaustive model checking (3 requests, channel capacity 2, failing subscription) with safety and liveness, bound to the code by gate replay of model behaviours and TLC-judged records of real query events; a violation is a real query event with a missing/duplicate reply, a missing, repeated or non-final nil call, or a listener goroutine left running.",
